@@ -15,6 +15,8 @@ package field
 //@ ghost func fldVal(f ref) ref
 //@ ghost func valEq(a ref, b ref) bool
 //@ ghost func valOf(data string) ref
+// the zero List (no fields)
+//@ ghost def flist0() map[string]ref = constmap("map[string]ref", nil)
 
 //@ func Field.Name
 //@   assumed
